@@ -208,6 +208,15 @@ def rand_desc(rng, d=None, n_dt=None, n_c=None, n_n=None, basis=None, features=N
         tl = 'nontraceless_nop' not in features
         n_opers.append(rand_herm(rng, d, traceless=tl))
     n_opers = np.array(n_opers)
+    if 'projector_nop' in features:
+        # a structured noise operator with a trace: the projector on one level other than the first
+        # (first row and column zero, trace one), possibly next to generic ones
+        k = int(rng.integers(1, d))
+        n_opers[0] = 0
+        n_opers[0][k, k] = 1.0
+        if len(n_opers) > 1 and rng.random() < 0.5:
+            n_opers[1] = 0
+            n_opers[1][0, 0] = 1.0
     if 'commuting' in features:
         n_opers[0] = c_opers[0]
     if 'zero_nop' in features:
@@ -240,7 +249,7 @@ def rescale_time(desc, lam):
 
 FEATURES = ['idle', 'zero_dt', 'repeat', 'big_angle', 'wide_dt', 'degenerate', 'commuting',
             'zero_nop', 'nontraceless_nop', 'neg_sens', 'structured', 'cancel_sens', 'near_repeat',
-            'full_rotation']
+            'full_rotation', 'projector_nop']
 
 
 def rand_features(rng, p=0.25, pool=None):
